@@ -87,6 +87,16 @@ func genWorld(t *rapid.T, opts scenarioOpts) *scenario {
 			[]string{"cmsg", "cmsg", "cmsg", "cdel", "cedit", "cread"}, id)
 	}
 	w.sliceLimit = rapid.SampledFrom([]int{0, 0, 0, 1, 2, 3}).Draw(t, "sliceLimit")
+	if rapid.IntRange(0, 2).Draw(t, "minEntities") == 0 {
+		// containers and differences carry min entities; the store the client
+		// completes them from may be down (then it hands them over as they are)
+		w.withMin = true
+		sc.class("min-entities")
+		if rapid.Bool().Draw(t, "hasherDown") {
+			w.hasherDown = true
+			sc.class("access-hash-store-down")
+		}
+	}
 	if opts.tooLong {
 		w.tooLongGap = rapid.SampledFrom([]int{0, 0, 3, 5}).Draw(t, "tooLongGap")
 		w.chTooLong = rapid.SampledFrom([]int{0, 0, 3}).Draw(t, "chTooLong")
@@ -117,7 +127,8 @@ func (sc *scenario) start(t fataler, store *memStorage) {
 	sc.mgr = updates.New(updates.Config{
 		Handler:      w.handler(),
 		Storage:      store,
-		AccessHasher: hasher{},
+		AccessHasher:     hasher{fail: w.hasherDown},
+		UserAccessHasher: hasher{fail: w.hasherDown},
 		OnTooLong: func() {
 			w.mu.Lock()
 			w.record(event{kind: "toolong", seq: "pts"})
@@ -202,6 +213,11 @@ func (sc *scenario) container(t *rapid.T, ents []entry, noSeq ...bool) tg.Update
 		}
 		sc.class("seq")
 	}
+	var chats []tg.ChatClass
+	var users []tg.UserClass
+	if sc.w.withMin {
+		chats, users = minEntities()
+	}
 	switch rapid.IntRange(0, 2).Draw(t, "containerKind") {
 	case 0:
 		if len(ups) == 1 && seq == 0 {
@@ -209,9 +225,9 @@ func (sc *scenario) container(t *rapid.T, ents []entry, noSeq ...bool) tg.Update
 		}
 		fallthrough
 	case 1:
-		return &tg.Updates{Updates: ups, Date: date, Seq: seq}
+		return &tg.Updates{Updates: ups, Date: date, Seq: seq, Chats: chats, Users: users}
 	default:
-		return &tg.UpdatesCombined{Updates: ups, Date: date, Seq: seq, SeqStart: seq}
+		return &tg.UpdatesCombined{Updates: ups, Date: date, Seq: seq, SeqStart: seq, Chats: chats, Users: users}
 	}
 }
 
